@@ -556,8 +556,13 @@ package sipsp
 //@     decreases len(buf) - i
 //@   ensures offs <= n && n <= len(buf)
 //@   ensures err == ErrHdrOk || err == ErrHdrMoreBytes || err == ErrHdrBadChar
+//@   ensures err == ErrHdrOk ==> n > offs
 //@   ensures[C17] "quoted-complete": err == ErrHdrOk ==> n > offs && buf[n-1] == '"' && forall(k, offs, n, !isCRLF(buf[k]))
 //@   ensures err == ErrHdrMoreBytes ==> n == len(buf) || (n+1 == len(buf) && buf[n] == '\\')
+
+//@ func tokAllowedChar(c, flags) (r)
+//@   inline
+//@   ensures[C17] "charset-table": r == tokSpec(c, flags)
 
 //@ func ParseTokenParam(buf, offs, param, flags) (n, err)
 //@   law[C03,C02] EXT(buf) when flags&POptInputEndF == 0
@@ -581,6 +586,7 @@ package sipsp
 //@   ensures[C17] "ok-at-terminator": param_old.state != vpFIN && err == ErrHdrOk ==> param.state == vpFIN && n < len(buf) &&
 //@                 ((ptTerm(flags) != 0 && buf[n] == ptTerm(flags)) || flags&POptTokSpTermF != 0)
 //@   ensures[C17] "more-values": err == ErrHdrMoreValues ==> param.state == vpInitNxtVal && n < len(buf) && tokAllowedChar(buf[n], flags) && buf[n] != ptSep(flags)
+//@   ensures[C17] "only-separators-skipped": ptInv(buf, &param_old, offs, flags) && err == ErrHdrMoreValues ==> fend(param.All) < n && sepOrLws(buf, fend(param.All), n, flags)
 //@   ensures[C17] "bad-char": err == ErrHdrBadChar && param.state == vpERR ==> n < len(buf) && (!tokAllowedChar(buf[n], flags) || flags&POptTokSpTermF == 0)
 
 // ---- URI parameter and header lists (C17) ----
@@ -598,7 +604,7 @@ package sipsp
 //@   loop 0 "for"
 //@     invariant offs0 <= offs && offs <= len(buf) && uparOK(l, buf, offs, flags|POptParamSemiSepF)
 //@     invariant 0 <= vNo && l.N == l_old.N + vNo && vNo <= offs - offs0 + 1 && (vNo == 0 || curUPar(l).Param.state == vpInit)
-//@     invariant[C17] l.Types&l_old.Types == l_old.Types
+//@     invariant[C17] l.Types&l_old.Types == l_old.Types && (vNo > 0 ==> l.Types != 0)
 //@     split l.N < len(l.Params)
 //@     split l.N+1 < len(l.Params)
 //@     decreases listMeasure(len(buf)-offs, vNo)
@@ -607,7 +613,7 @@ package sipsp
 //@   ensures err == ErrHdrMoreBytes ==> uparOK(l, buf, n, flags|POptParamSemiSepF)
 //@   ensures[C17] "counted": l.N == l_old.N + vNo && 0 <= vNo
 //@   ensures uparWF(l)
-//@   ensures[C17] "types-accumulate": l.Types&l_old.Types == l_old.Types
+//@   ensures[C17] "types-accumulate": l.Types&l_old.Types == l_old.Types && (vNo > 0 ==> l.Types != 0)
 
 //@ func ParseAllURIHdrs(buf, offs, l, flags) (n, vNo, err)
 //@   requires bufOK(buf) && 0 <= offs && offs <= len(buf) && l != nil && uhdrOK(l, buf, offs, flags|POptParamAmpSepF|POptTokURIHdrF) && l.N <= 1<<30
